@@ -177,6 +177,31 @@ def telescope_2d(check):
         check.ok("PERIODIC-CLOSE", f.qualname, "2D: the exterior state of each periodic boundary line is copied from the same array on the connected line, same row/column order: both ends feed identical pairs to a point-wise flux", f.loc())
 
 
+def effective_gradient_relations(A, stages):
+    """the gradient stages without their no-op stores: `xgrad[boundary line] = 0.` into the freshly zero-allocated difference
+    array, on a line no earlier relation wrote, changes nothing -- a code path that keeps such a statement and its transposed
+    twin that relies on the allocation are the same function"""
+    def disjoint(r, o):
+        axis = "i" if r.kind == "col" else "j"
+        rng = o.dom.get(axis)
+        line = r.dom[axis]
+        if not isinstance(rng, tuple) or not isinstance(line, str):
+            return False
+        lo, hi = A.show(rng[0]), A.show(rng[1])
+        return (line == "0" and lo == "1") or (line in ("nx", "ny") and hi == line)
+    seen, out = [], dict(stages)
+    for st in ("calc_grad", "calc_bc_grad"):
+        keep = []
+        for r in stages.get(st, []):
+            noop = (r.expr.is_zero() and r.array[:3] in ("xg_", "yg_") and r.kind in ("col", "rowabs")
+                    and all(disjoint(r, o) for o in seen if o.array == r.array and not o.expr.is_zero()))
+            seen.append(r)
+            if not noop:
+                keep.append(r)
+        out[st] = keep
+    return out
+
+
 def transpose(check):
     proj = check.proj
     for recon in ("extrapol2d1", "extrapol2dk"):
@@ -188,6 +213,7 @@ def transpose(check):
                     check.undecided("STN-TRANSPOSE", "modeldisc.fvm2dcart [%s, %s]" % (recon, bname), str(e))
                     continue
                 A = D.eng.alg
+                stages = effective_gradient_relations(A, stages)
                 for st_name in ("calc_grad", "calc_bc_grad", "interp_face", "calc_res") + (("calc_bc",) if bct is PER else ()):
                     rels = stages[st_name]
                     where = rels[0].where if rels else st_name
@@ -212,6 +238,7 @@ def transpose(check):
             except AnalysisError as e:
                 check.undecided("STN-TRANSPOSE", "modeldisc.fvm2dcart [%s, mixed periodicity]" % recon, str(e))
                 continue
+            sx, sy = effective_gradient_relations(Dx.eng.alg, sx), effective_gradient_relations(Dy.eng.alg, sy)
             for st_name in ("calc_grad", "calc_bc_grad", "interp_face", "calc_res"):
                 for (Da, ra, Db, rb, nm) in ((Dx, sx[st_name], Dy, sy[st_name], "x-periodic -> y-periodic"), (Dy, sy[st_name], Dx, sx[st_name], "y-periodic -> x-periodic")):
                     missing = []
